@@ -1,7 +1,7 @@
 //! Event-level traces of the xargs batching loop (spec/trace/T_XLoop.tla): the binary built with the verification
 //! hook logs one event per step of process_input to FINDUTILS_VERIF_TRACE.
 //! Input: as C04 (spec/XargsBatch.tla) {args:[{len,hard}], n, L, s, cmd, x, r, ninit, sepstyle, mb [, argmax] [, rlim: stack limit]} + script
-//! Observation: {real:{cmd, s, rlim, envc, envbytes} (bytes of command + initial arguments, the -s actually passed, the stack limit and
+//! Observation: {real:{cmd, s, rlim, envc, envbytes, fname} (bytes of command + initial arguments, the -s actually passed, the stack limit and
 //!   the environment xargs was given), events:[..], exit}
 use super::p04::synth_stdin;
 use super::Prop;
@@ -47,7 +47,7 @@ impl Prop for PXLoop {
         if s > 0 {
             real_s = real_cmd + (s - cmd);
             if real_s <= 0 {
-                return json!({"unrepresentable": true, "events": [], "real": {"cmd": real_cmd, "s": 0, "rlim": 0, "envc": 0, "envbytes": 0}});
+                return json!({"unrepresentable": true, "events": [], "real": {"cmd": real_cmd, "s": 0, "rlim": 0, "envc": 0, "envbytes": 0, "fname": 0}});
             }
             o.opts.push("-s".into());
             o.opts.push(real_s.to_string());
@@ -74,11 +74,11 @@ impl Prop for PXLoop {
         o.env.push(("FINDUTILS_VERIF_TRACE".into(), tracef.to_string_lossy().into_owned()));
         let res = run_xargs(&self.sb, &o);
         if looks_like_panic(&res) {
-            return json!({"panic": true, "exit": res.exit, "events": [], "real": {"cmd": real_cmd, "s": real_s, "rlim": rlim, "envc": 0, "envbytes": 0}});
+            return json!({"panic": true, "exit": res.exit, "events": [], "real": {"cmd": real_cmd, "s": real_s, "rlim": rlim, "envc": 0, "envbytes": 0, "fname": 0}});
         }
         let events: Vec<Value> = std::fs::read_to_string(&tracef).unwrap_or_default().lines().filter_map(|l| serde_json::from_str(l).ok()).collect();
         let (envc, envbytes) = res.env_stats.unwrap_or((0, 0));
-        json!({"real": {"cmd": real_cmd, "s": real_s, "rlim": rlim, "envc": envc, "envbytes": envbytes}, "events": events, "exit": res.exit, "nexec": res.execs.len()})
+        json!({"real": {"cmd": real_cmd, "s": real_s, "rlim": rlim, "envc": envc, "envbytes": envbytes, "fname": vrec_path().as_os_str().len() + 1}, "events": events, "exit": res.exit, "nexec": res.execs.len()})
     }
 
     fn gen(&mut self, rng: &mut Rng, idx: usize, tier: &str) -> Value {
